@@ -53,6 +53,10 @@ type recStream struct {
 	AU       bool   `json:"au,omitempty"`       // H264: key frames are SPS+PPS+IDR access units (STAP-A)
 	SizeProf int    `json:"sizeprof,omitempty"` // 0: <= 6 kB, 1: <= 40 kB, 2: <= 200 kB
 	MaxSize  int    `json:"maxsize,omitempty"`  // cap on frame sizes (shrinking)
+	// the source is silent for PauseS seconds before frame PauseAt (a muted
+	// track): capture time and RTP timestamps go on as if it had not been
+	PauseAt int `json:"pauseat,omitempty"`
+	PauseS  int `json:"pauses,omitempty"`
 }
 
 type recFrame struct {
@@ -244,6 +248,10 @@ func genRecStream(sp *recStream) ([]*recFrame, []*recPkt) {
 	for f := 0; f < sp.Frames; f++ {
 		key := sp.audio() || f == 0 || (sp.KFEvery > 0 && f%sp.KFEvery == 0) || (sp.ResAt > 0 && f == sp.ResAt)
 		fr := &recFrame{Idx: f, Key: key, TS: sp.StartTS + uint32(f)*(sp.clock()/uint32(fps)), CapUs: int64(f) * 1000000 / int64(fps)}
+		if sp.PauseAt > 0 && f >= sp.PauseAt {
+			fr.TS += uint32(uint64(sp.PauseS) * uint64(sp.clock()))
+			fr.CapUs += int64(sp.PauseS) * 1000000
+		}
 		fr.W, fr.H = recDims(sp, f)
 		n := recFrameSize(rnd, sp, key)
 		var payloads [][]byte
@@ -480,6 +488,16 @@ func genRecPlan(tp *simrt.Tape, seed uint64, tier string) any {
 	return p
 }
 
+// recLongPause: the plan being generated is for the "record-pause"
+// scenario (set by its generator only; generation is single-threaded).
+var recLongPause bool
+
+func genRecPausePlan(tp *simrt.Tape, seed uint64, tier string) any {
+	recLongPause = true
+	defer func() { recLongPause = false }()
+	return genRecPlan(tp, seed, tier)
+}
+
 func genRecPlan0(tp *simrt.Tape, seed uint64, tier string) *recPlan {
 	p := &recPlan{}
 	kind := tp.Weighted(5, 3, 2) // a+v, video only, audio only
@@ -517,6 +535,24 @@ func genRecPlan0(tp *simrt.Tape, seed uint64, tier string) *recPlan {
 	}
 	p.UptimeS = []int{31, 0, 3600}[tp.Weighted(3, 1, 1)]
 	p.Faults = !tp.Chance(1, 3)
+	if recLongPause {
+		// the publisher is muted for hours, long enough for the timestamps to
+		// move 2^31 ticks away from where the recording began (6.6 h of
+		// video, 12.4 h of audio)
+		secs := 44745 + tp.Draw(500)
+		if p.Video != nil {
+			secs = 23870 + tp.Draw(500)
+			p.Video.PauseAt, p.Video.PauseS = 3+tp.Draw(nf-3), secs
+		}
+		if p.Audio != nil {
+			p.Audio.PauseS = secs
+			if p.Video != nil {
+				p.Audio.PauseAt = p.Video.PauseAt*50/fps + 1
+			} else {
+				p.Audio.PauseAt = 3 + tp.Draw(p.Audio.Frames-3)
+			}
+		}
+	}
 	lossP, dupP, reoP, lateDupP := 0, 0, 0, 0
 	stallOn := false
 	tailHole := false
@@ -627,6 +663,12 @@ func genRecPlan0(tp *simrt.Tape, seed uint64, tier string) *recPlan {
 	n := len(p.Arrivals)
 	// sender reports
 	p.SRMode = tp.Weighted(3, 3, 2, 2)
+	if recLongPause {
+		// Sender reports more than 2^31 ticks after the origin of a file (or
+		// older than that) are beyond what 32-bit RTP arithmetic can place:
+		// not part of this scenario (DESIGN.md 9.4).
+		p.SRMode = 0
+	}
 	if p.SRMode == 1 || p.SRMode == 3 {
 		p.Events = append(p.Events, recEvent{After: 0, Kind: "sr", A: 0}, recEvent{After: 0, Kind: "sr", A: 1}, recEvent{After: 0, Kind: "sleep", A: 1})
 	}
@@ -1919,6 +1961,8 @@ func (w *recWorld) judgeComplete(s *recSession, tag string) {
 	var videoOpen int64 = -1 // stamp at which the file of an audio+video recording was certainly open
 	var videoL0 time.Duration
 	var videoAge time.Duration
+	var videoWrapFromUs, videoWrapToUs int64 = -1, -1 // capture times between which the video track waits for a key frame after the 2^31 split
+	const wrapWhy = "the timestamps have moved 2^31 ticks away from the key frame that opened the file: the recorder closes the file at once, and the next file has to wait for a key frame"
 	// video first: audio depends on when the file was opened
 	order := make([]*recSessTrack, len(s.trks))
 	copy(order, s.trks)
@@ -2071,6 +2115,13 @@ func (w *recWorld) judgeComplete(s *recSession, tag string) {
 		}
 		// hints for triage: circumstances known to make the recorder lose frames
 		kf0 := -1 // the key frame that set the time origin, once known
+		// The circumstance of a known finding: when the timestamps of the
+		// video track have moved 2^31 ticks away from the key frame that
+		// opened the file (a publisher silent for hours), the recorder closes
+		// the file at once; the next one cannot start before a key frame
+		// comes, and what arrives in between is lost.  Frames wrapFrom up to
+		// (not including) wrapTo, the next key frame that arrived completely.
+		wrapFrom, wrapTo := -1, -1
 		hints := func(f int) string {
 			var h []string
 			base := t.pkts[lo].Frame
@@ -2111,6 +2162,9 @@ func (w *recWorld) judgeComplete(s *recSession, tag string) {
 				if moved > 0 && int64(t.frames[f].CapUs-t.frames[base].CapUs)*int64(t.sp.clock())/1000000 <= moved+int64(t.sp.clock())/1000 {
 					h = append(h, st.originNote()+", past this frame")
 				}
+			}
+			if t.kind == 1 && wrapFrom >= 0 && f >= wrapFrom && (wrapTo < 0 || f < wrapTo) {
+				h = append(h, wrapWhy)
 			}
 			if t.sp.Codec == "h264" && t.sp.AU {
 				h = append(h, "H.264 key frames are access units of several NAL units (the sample builder takes every NAL unit packet for a frame of its own)")
@@ -2181,6 +2235,27 @@ func (w *recWorld) judgeComplete(s *recSession, tag string) {
 			if e0 < 0 {
 				continue
 			}
+			if t.sp.PauseAt > 0 {
+				for g := e0; g < len(t.frames); g++ {
+					if t.frames[g].TS-t.frames[e0].TS >= 1<<31 {
+						wrapFrom = g
+						break
+					}
+				}
+				for g := wrapFrom; g >= 0 && g < len(t.frames); g++ {
+					if ok, _, _ := full(t.frames[g]); ok && t.frames[g].Key {
+						wrapTo = g
+						break
+					}
+				}
+				if wrapFrom >= 0 {
+					videoWrapFromUs = t.frames[wrapFrom].CapUs
+					videoWrapToUs = -1
+					if wrapTo >= 0 {
+						videoWrapToUs = t.frames[wrapTo].CapUs
+					}
+				}
+			}
 			for f := e0; f < len(t.frames); f++ {
 				ok, _, _ := full(t.frames[f])
 				if !ok {
@@ -2241,6 +2316,14 @@ func (w *recWorld) judgeComplete(s *recSession, tag string) {
 				required++
 				if _, ok := st.present[f.Idx]; !ok {
 					hs := hints(f.Idx)
+					if hasVideo && videoWrapFromUs >= 0 && f.CapUs >= videoWrapFromUs-w.maxDelay-25000 && (videoWrapToUs < 0 || f.CapUs <= videoWrapToUs+w.maxDelay+25000) {
+						h := wrapWhy + " (audio is discarded until then)"
+						if hs == "none" {
+							hs = h
+						} else {
+							hs += "; " + h
+						}
+					}
 					if hasVideo {
 						var first int64 = -1
 						for _, rf := range w.files {
@@ -2470,9 +2553,27 @@ func runRecord(c *Ctx, plan any) {
 }
 
 func init() {
+	// The same world with a publisher that is silent for hours in
+	// mid-stream: the timestamps move 2^31 ticks away from the origin of the
+	// recording.  A run costs some 800 000 scheduler steps (the server's
+	// periodic tasks keep ticking through the silence), hence the weight.
+	Register("C20", &Scenario{
+		Name:   "record-pause",
+		Weight: 1,
+		Owns:   []string{"C20"},
+		New:    func() any { return &recPlan{} },
+		Gen:    genRecPausePlan,
+		Cfg: func(tp *simrt.Tape, plan any) simrt.Config {
+			c := swarmCfg(tp, true)
+			c.MaxSteps = 6_000_000
+			return c
+		},
+		Run:    runRecord,
+		Shrink: shrinkRec,
+	})
 	Register("C20", &Scenario{
 		Name:   "record",
-		Weight: 3,
+		Weight: 800,
 		Owns:   []string{"C20"},
 		New:    func() any { return &recPlan{} },
 		Gen:    genRecPlan,
